@@ -432,6 +432,12 @@ def correspond(ctx, corr):
     check_planted(ctx, corr, ctx.size(36, 1200))
     c02.check_decision(ctx, corr, ctx.size(200, 5000))
     c02.check_singular(ctx, corr, ctx.size(150, 3000))
+    # refusal of the svd subset regularisation (Props/C20/SvdSubset.lean): refused iff the subset does not resolve the
+    # defect, in particular a subset of size exactly = defect that resolves it is accepted (stream shared with C08)
+    from props import c08
+    c08.svdsub_stream(ctx, corr, ctx.size(24, 600))
+    if corr.stats.get("svdsub_size_eq_defect_resolving", 0) < 10:
+        corr.inconclusive.append("too few svd subsets of size exactly = defect that resolve it")
 
 
 def search(ctx, broken, corr):
